@@ -103,6 +103,28 @@ def ffftRec (start n : Nat) (factors : List Nat) : List FfftOp :=
           ++ (if ny == 2 then [FfftOp.f0 (start + ny * x)] else [FfftOp.prime (start + ny * x) ny]))
     ++ [FfftOp.perm start permutation false]
 
+/-- product of the factor list -/
+def listProd (l : List Nat) : Nat := l.foldr (· * ·) 1
+
+/-- Cooley–Tukey index recursion of `_ffft`, read off the emitted operations: the transformed
+`a†_k` has the coefficient `n^{-1/2} e^{-2πi·ctExp factors k j / n}` on `a†_j`, `n = ∏ factors`.
+For `n = ny·nx` (`ny` the first factor): `_permute` sends position `i` to `(i % ny)·nx + i / ny`
+(input index `j = x'·ny + y` lands in block `y`, slot `x'`), the `ny` sub-transforms of size `nx` act on
+the blocks (exponent unit `1/nx = ny/n`), the inverse permutation puts `(y, kx)` at `ny·kx + y`,
+`_TwiddleGate(kx·y, n)` multiplies by `e^{-2πi kx y / n}`, the `nx` transforms of size `ny` act on
+`ny·kx … ny·kx + ny − 1` (unit `1/ny = nx/n`), and the final `_permute` sends `ny·kx + ky` to
+`k = ky·nx + kx`. -/
+def ctExp : List Nat → Nat → Nat → Nat
+  | [], _, _ => 0
+  | [_], k, j => k * j
+  | ny :: f :: fx, k, j =>
+    let nx := listProd (f :: fx)
+    ny * ctExp (f :: fx) (k % nx) (j / ny) + (k % nx) * (j % ny) + nx * ((k / nx) * (j % ny))
+
+/-- exponent table of `ffft` on `n` modes -/
+def ffftExpTable (n : Nat) : List (List Nat) :=
+  (List.range n).map fun k => (List.range n).map fun j => ctExp (primeFactors n n) k j % n
+
 /-- `ffft(qubits)` for `n ≥ 1` (`n = 1`: no operations) -/
 def ffftOps (n : Nat) : List FfftOp :=
   if n ≤ 1 then [] else ffftRec 0 n (primeFactors n n)
